@@ -420,9 +420,16 @@ pub fn plan(p: u32, tier: &str) -> Vec<Run> {
         8 | 9 => {
             add(s3(true), families::slots(3));
             add(s4(true), families::slots(4));
-            let mut l2 = late("late2x+follow", true);
-            l2.follow = true;
-            add(l2, families::late_gadget(2, true));
+            if p == 9 {
+                // with the graphs that lack one free slot: the interrupted evaluation may add a consumer
+                let mut l2 = late("late2x+removals+follow", true);
+                l2.follow = true;
+                add(l2, families::with_slot_removals(families::late_gadget(2, true)));
+            } else {
+                let mut l2 = late("late2x+follow", true);
+                l2.follow = true;
+                add(l2, families::late_gadget(2, true));
+            }
             if p == 8 {
                 // failures the engine declares itself (a validated Ephemeral changing its output);
                 // not for C09: a volatile job's output differs between the resume and the uninterrupted run
@@ -481,7 +488,7 @@ pub fn plan(p: u32, tier: &str) -> Vec<Run> {
             add(s3(true), families::slots(3));
             add(s4(false), families::slots(4));
             add(s4d2ff(), families::slots(4));
-            add(late("late2x", true), families::late_gadget(2, true));
+            add(late("late2x+removals", true), families::with_slot_removals(families::late_gadget(2, true)));
             add(deep3("S3D4-ff", 4, vec![false; 4]), families::slots(3));
             add(deep3("S3D3-f010", 3, vec![false, true, false]), families::slots(3));
             add(rename("rename-prod", Conv::Parts, Cmp::Prod), families::rename_opts(false, Kind::O, false));
@@ -1078,6 +1085,7 @@ pub fn cmd_run(args: &[String]) -> i32 {
         "renameE" => families::rename(true, Kind::E),
         "shapes" => families::shapes(true),
         "late2" => families::late_gadget(2, true),
+        "late2r" => families::with_slot_removals(families::late_gadget(2, true)),
         "late3" => families::late_gadget(3, false),
         "late3x" => families::late_gadget(3, true),
         "late3xu-OOO" => families::late_gadget_opts(3, true, false, Some(vec![Kind::O, Kind::O, Kind::O])),
